@@ -760,8 +760,11 @@ class MembersType(StandardEncodeMixin, StandardDecodeMixin, Type):
 
         # Decode additions (even if out of data already, so defaults can be added)
         if self.additions:
+            # The end-of-contents octets of an indefinite length field
+            # must not be looked for twice.
             offset, out_of_data = self.decode_members(flatten(self.additions), data, values, offset, end_offset,
-                                                      ignore_missing=True)
+                                                      ignore_missing=True,
+                                                      out_of_data=(out_of_data and end_offset is None))
 
         if out_of_data:
             return values, offset
@@ -773,7 +776,7 @@ class MembersType(StandardEncodeMixin, StandardDecodeMixin, Type):
             # Extra data is allowed in cases of versioned additions
             return values, end_offset
 
-    def decode_members(self, members, data, values, offset, end_offset, ignore_missing=False):
+    def decode_members(self, members, data, values, offset, end_offset, ignore_missing=False, out_of_data=False):
         """
         Decode values for members from data starting from offset
         Supports member data encoded in different order than members specified
@@ -788,7 +791,7 @@ class MembersType(StandardEncodeMixin, StandardDecodeMixin, Type):
         # Decode member values from data
         remaining_members = members
         # Outer loop to enable decoding members out of order
-        while True:
+        while not out_of_data:
             undecoded_members = []
             decode_success = False  # Whether at least one member was successfully decoded
 
